@@ -37,7 +37,7 @@ type RespPlan struct {
 	TrailerStyle     string      `json:"trailer_style,omitempty"`      // announce | prefix
 	AnnounceCase     string      `json:"announce_case,omitempty"`      // spelling of the names in the Trailer header: "" canonical | lower | upper | given | lines (one header line per name)
 	StrayHTTPTrailer bool        `json:"stray_http_trailer,omitempty"` // a Connect-unary backend (whose trailers are Trailer- headers) also sets a real HTTP trailer, as a middleware might
-	CTCharset        bool        `json:"ct_charset,omitempty"`         // a REST backend labels its JSON "application/json; charset=utf-8"
+	CTCharset        bool        `json:"ct_charset,omitempty"`         // a REST backend labels its JSON (a Connect unary backend: its error JSON) "application/json; charset=utf-8"
 	CompressErrBody  bool        `json:"compress_err_body,omitempty"`  // a Connect-unary backend compresses its error body too (legal; connect-go does not)
 	EarlyTrailers    bool        `json:"early_trailers,omitempty"`     // prefix style: the first value of a multi-valued trailer is set before the head is written, the rest after the body
 	DeclareCL        string      `json:"declare_cl,omitempty"`         // "" | exact | +N | -N | =N
@@ -386,6 +386,11 @@ func (h *backendHandler) classify(obs *BackendObs, r *http.Request) {
 		obs.problem("multiple %s values %q", timeoutHdr, vs)
 	}
 	obs.Timeout = hd.Get(timeoutHdr)
+	if obs.Timeout != "" {
+		if _, ok := refTimeoutNanos(timeoutHdr, obs.Timeout); !ok {
+			obs.problem("%s: %q is not a well-formed timeout of this protocol", timeoutHdr, obs.Timeout)
+		}
+	}
 	// --- leftovers of other protocols that contradict this one
 	for _, other := range []string{"Grpc-Encoding", "Connect-Content-Encoding", "Content-Encoding"} {
 		if other == compHdr {
@@ -816,6 +821,9 @@ func (h *backendHandler) renderResponse(st *rpcState, obs *BackendObs, override 
 				rr.status = 500
 			}
 			rr.headers.Set("Content-Type", "application/json")
+			if rp.CTCharset {
+				rr.headers.Set("Content-Type", "application/json; charset=utf-8") // a legal label of the same JSON
+			}
 			rr.body = connectErrToJSON(errSpec)
 			if rp.CompressErrBody && comp != "" {
 				rr.body = refCompress(comp, rr.body)
